@@ -6,7 +6,7 @@ open List0
 open TableSM
 
 type cfg = { c_factor : coq_N; c_max_wal_files : coq_N;
-             c_max_wal_bytes : coq_N; c_seed : name }
+             c_max_wal_bytes : coq_N }
 
 type segment = { sg_bytes : coq_N; sg_data : batch }
 
@@ -142,7 +142,7 @@ let rec apply_batch b l =
 let ingest c b bytes s =
   if N.ltb c.c_max_wal_bytes s.wal_size
   then Blocked
-  else bind (prepare c.c_seed b s.tabs [] []) (fun pat ->
+  else bind (prepare code_seed b s.tabs [] []) (fun pat ->
          let (p, colrows) = pat in
          let (l1, created) = p in
          let full = app b (app (meta_tables_batch created) colrows) in
@@ -331,7 +331,7 @@ let rec replay seed w expect l =
 
 (** val recover : cfg -> db -> db res **)
 
-let recover c s =
+let recover _ s =
   let cursor = match s.d_cursor with
                | Some k -> k
                | None -> N0 in
@@ -340,9 +340,9 @@ let recover c s =
     fold_left (fun a x -> N.max a (N.add (fst x) (Npos Coq_xH))) keep cursor
   in
   let size = fold_left (fun a x -> N.add a (snd x).sg_bytes) keep N0 in
-  bind (restore_tables c.c_seed s.tabs) (fun l0 ->
-    let (l1, _) = create_if_empty c.c_seed s_meta_tables l0 in
-    bind (replay c.c_seed keep None l1) (fun l2 -> Val { tabs = l2;
+  bind (restore_tables code_seed s.tabs) (fun l0 ->
+    let (l1, _) = create_if_empty code_seed s_meta_tables l0 in
+    bind (replay code_seed keep None l1) (fun l2 -> Val { tabs = l2;
       next_wal = next; earliest = cursor; wal_size = size; d_cursor =
       s.d_cursor; d_wal = keep; acked = s.acked }))
 
@@ -363,9 +363,9 @@ let step guard c s = function
 
 (** val init : cfg -> db **)
 
-let init c =
+let init _ =
   { tabs = ((s_meta_tables,
-    (empty_table (seed_cols c.c_seed s_meta_tables (Some [])))) :: []);
+    (empty_table (seed_cols code_seed s_meta_tables (Some [])))) :: []);
     next_wal = N0; earliest = N0; wal_size = N0; d_cursor = None; d_wal = [];
     acked = [] }
 
